@@ -93,6 +93,17 @@ def rule_finalize(chk, rid):
             "size": "metadata['fileinfo']['size'] = len(data)", "md5": "hashlib.md5(data).hexdigest()"}
     for k, frag in need.items():
         chk.ob(rid, f"{base.qual}.finalize_metadata", frag in txt, f"records `{k}` from the arguments ({frag})", fm, mod, key=f"field:{k}")
+    # size and checksum describe the bytes given *now*: their assignments may depend on the data argument and the class switch only,
+    # never on what the previous record says (a same-length overwrite would keep a stale md5)
+    fcfg = CFG(fm)
+    for fld, frag in (("size", "len(data)"), ("md5", "hashlib.md5(data).hexdigest()")):
+        for n_ in fcfg.nodes:
+            if n_.kind == "stmt" and isinstance(n_.ast, ast.Assign) and U(n_.ast.value) == frag and fld in U(n_.ast.targets[0]):
+                lits_ = dominating_literals(fcfg, n_.id)
+                bad = sorted({t_ for _, t_, _, _ in lits_ if "metadata" in t_ or "fileinfo" in t_})
+                chk.ob(rid, f"{base.qual}.finalize_metadata", not bad, f"`{fld}` is recorded whenever data is given (conditions: {sorted({t_ for _, t_, _, _ in lits_})})" if not bad else
+                       f"`{fld}` is recomputed only when {bad}: the decision reads the previous record, so an overwrite the test does not notice keeps a stale {fld}",
+                       n_.ast, mod, key=f"fresh:{fld}")
     for c in [base] + [repo.cls(STORE, x) for x in ("FileStore", "RoutingStore")]:
         f = c.methods.get("finalize_metadata")
         if f is None:
